@@ -247,10 +247,16 @@ def control(x):
 _INDEX_FUNCS = ("np.where", "numpy.where", "np.nonzero", "numpy.nonzero", "np.argwhere", "numpy.argwhere", "np.flatnonzero", "numpy.flatnonzero")
 
 
+_IDX_FUNCS = set()      # names of analysed functions all of whose returns are index arrays (filled by _index_truth)
+
+
 def _is_index_array(e, local_idx) -> bool:
     """np.where(c)[k] / np.nonzero(c)[k] / c.nonzero()[k] / np.flatnonzero(c) / np.argwhere(c), or a local name that only ever holds one"""
     if isinstance(e, ast.Name):
         return e.id in local_idx
+    if isinstance(e, ast.Call) and ((isinstance(e.func, ast.Name) and e.func.id in _IDX_FUNCS) or
+                                    (isinstance(e.func, ast.Attribute) and e.func.attr in _IDX_FUNCS and e.func.attr not in ("where", "nonzero"))):
+        return True
     if isinstance(e, ast.Subscript) and isinstance(e.value, ast.Call):
         c = e.value
         d = ast.unparse(c.func)
@@ -266,6 +272,18 @@ def _is_index_array(e, local_idx) -> bool:
 def _index_truth(trees):
     """-> (number of index arrays seen, [(where, relpath, text, name)] value-based emptiness tests of an index array)"""
     seen, bad = 0, []
+    # functions that hand out an index array (every return is one): their results are index arrays at the call sites
+    _IDX_FUNCS.clear()
+    for rel, tree in trees:
+        for fn in [n for n in ast.walk(tree) if isinstance(n, (ast.FunctionDef, ast.AsyncFunctionDef))]:
+            loc = {}
+            for n in ast.walk(fn):
+                if isinstance(n, ast.Assign) and len(n.targets) == 1 and isinstance(n.targets[0], ast.Name):
+                    loc.setdefault(n.targets[0].id, []).append(n.value)
+            li = {nm for nm, vs in loc.items() if all(_is_index_array(v, ()) for v in vs)}
+            rets = [r.value for r in ast.walk(fn) if isinstance(r, ast.Return) and r.value is not None]
+            if rets and all(_is_index_array(r, li) for r in rets):
+                _IDX_FUNCS.add(fn.name)
     for rel, tree in trees:
         for fn in [n for n in ast.walk(tree) if isinstance(n, (ast.FunctionDef, ast.AsyncFunctionDef))]:
             stores = {}
